@@ -721,11 +721,38 @@ Proof.
     rewrite (req_Sk_rho g rq E), dot_Nk_ks, dot_Nk_ks1. unfold req_pairs, pSS, pSI, pII. rewrite E. cbn [fst snd]. repeat split; ring.
 Qed.
 
-(* heterogeneous pairwise, SIS, full data: still refused (ValueError from the IkIl expression) *)
-Lemma accepts_SIS_hetpw_full_refuted :
-  exists g rq, wf_ugraph g = true /\ wf_req g false rq = true /\
-    forall sv, SIS_heterogeneous_pairwise_from_graph g rq true sv = Err ValueErr.
-Proof. exists path3, (mkReq (Some [0%N]) None None). repeat split. Qed.
+(* heterogeneous pairwise, SIS: every consistent request is accepted, with and without full data *)
+Lemma get_NkNl_accepts g sir rq : wf_req g sir rq = true -> exists kk, get_NkNl_and_IC g rq = Ok kk.
+Proof.
+  intros W. unfold get_NkNl_and_IC. destruct (rq_I rq) as [I0|] eqn:E.
+  - destruct (wf_req_sets g sir rq I0 W E) as (Hrho & _). rewrite Hrho. cbn [isSome andb].
+    destruct (init_status_ok g sir rq I0 W E) as [st [-> _]]. cbn [rbind]. eexists; reflexivity.
+  - rewrite (wf_req_rho g sir rq W E). cbn [isSome andb]. rewrite !andb_false_r. eexists; reflexivity.
+Qed.
+
+Lemma accepts_SIS_hetpw g rq full sv :
+  wf_ugraph g = true -> wf_req g false rq = true ->
+  exists out, SIS_heterogeneous_pairwise_from_graph g rq full sv = Ok out.
+Proof.
+  intros WG W. pose proof (wf_req_noR g rq W) as NR. unfold SIS_heterogeneous_pairwise_from_graph.
+  rewrite (req_eta rq NR), (get_Nk_ok g false rq WG W). cbn [rbind].
+  destruct (get_NkNl_accepts g false rq W) as [kk ->]. cbn [rbind].
+  unfold SIS_heterogeneous_pairwise. destruct full; eexists; reflexivity.
+Qed.
+
+(* ... and on the former witness of the crash the IkIl series starts at the I-I pair matrix of the request *)
+Lemma row0_SIS_hetpw_full_example :
+  exists kk out IkIl SkSl SkIl, get_NkNl_and_IC path3 (mkReq (Some [0%N; 1%N]) None None) = Ok kk /\
+      SIS_heterogeneous_pairwise_from_graph path3 (mkReq (Some [0%N; 1%N]) None None) true const_solver = Ok out /\
+      lookup nIkIl out = Some (Ma IkIl) /\ lookup nSkSl out = Some (Ma SkSl) /\ lookup nSkIl out = Some (Ma SkIl) /\
+      Forall2 (Forall2 Qeq) (IkIl 0%nat) (kk_IkIl kk) /\ SkSl 0%nat = kk_SkSl kk /\ SkIl 0%nat = kk_SkIl kk /\
+      kk_IkIl kk = [[0; 1]; [1; 0]].
+Proof.
+  do 5 eexists. split; [vm_compute; reflexivity|]. split; [vm_compute; reflexivity|].
+  split; [vm_compute; reflexivity|]. split; [vm_compute; reflexivity|]. split; [vm_compute; reflexivity|].
+  split; [|split; [vm_compute; reflexivity|split; vm_compute; reflexivity]].
+  vm_compute. repeat constructor.
+Qed.
 
 (* heterogeneous pairwise, SIR, full data: the former witness of the SkSl/SkIl exchange now shows the documented order *)
 Lemma row0_SIR_hetpw_full_example :
